@@ -328,7 +328,7 @@ func (c *Ctx) Finish() int {
 	for _, k := range ks {
 		desc := k
 		for _, f := range c.findings {
-			if f.Signature == k {
+			if f.Signature == k && f.Property == c.ID {
 				desc = f.Description
 			}
 		}
